@@ -119,12 +119,24 @@ def verify_case(fc: FnContract, case: Case, timeout_ms=10000, budget_s=240):
                     stats["returning_paths"] += 1
                     if case.ensures is not None:
                         if case.axioms is not None:
-                            for ax in case.axioms(ns_old, value, ns_new):
+                            import inspect as _insp
+                            extra = [NS({k: v for k, v in env.items() if not k.startswith("__")}, ghost=NS(ctx.ghost))] \
+                                if len(_insp.signature(case.axioms).parameters) >= 4 else []
+                            for ax in case.axioms(ns_old, value, ns_new, *extra):
                                 ctx.assume(ax)
                         goal = case.ensures(ns_old, value, ns_new)
                         ctx.prove(S.to_z3(goal), "post")
                     if case.exact_integer and ctx.float_ops:
+                        # float-producing operations on integer operands inside exact-integer code: exact only while the
+                        # operands (and hence the result) are representable in binary64 -- an obligation, not an assumption
+                        from .engine import is_intlike, to_int_term
                         stats["float_ops"] += len(ctx.float_ops)
+                        lim = 2 ** 53
+                        for (line, opname, a, b) in ctx.float_ops:
+                            for x in (a, b):
+                                if x is not None and is_intlike(x) and not isinstance(x, (int, bool)):
+                                    t = to_int_term(x)
+                                    ctx.prove(z3.And(t <= lim, t >= -lim), f"float-exact:{opname}@line{line}")
                 else:
                     stats["raising_paths"] += 1
                     allowed = case.raises.get(value)
@@ -196,6 +208,30 @@ def replay_case(fc: FnContract, case: Case, model):
                 expected="postcondition of the contract (see obligation name)")
 
 
+def scale_ints(data, k):
+    if isinstance(data, bool):
+        return data
+    if isinstance(data, int):
+        return data * k
+    if isinstance(data, dict):
+        return {a: (b if a == "__class__" else scale_ints(b, k)) for a, b in data.items()}
+    if isinstance(data, (list, tuple)):
+        return type(data)(scale_ints(x, k) for x in data)
+    return data
+
+
+def replay_float_exact(fc, case, model):
+    """a float-exactness VC failed: the solver's model only shows an operand beyond 2^53; look for an input on which the
+    REAL function actually violates its contract by scaling the model's integers past the binary64 mantissa"""
+    for k in (1, 2 ** 53 + 1, 2 ** 60 + 3, 3 ** 40, 10 ** 17 + 3):
+        m = scale_ints(model, k)
+        rp = replay_case(fc, case, m)
+        if rp.get("confirmed"):
+            rp["scaled_by"] = k
+            return rp, m
+    return dict(confirmed=None, note="operands beyond 2^53 are possible but no input with a wrong result was found by scaling"), model
+
+
 def obligations_for(pid, fc: FnContract, tier="quick", finding=None, timeout=None):
     out = []
     short = fc.world.file.split("/")[-1][:-3]
@@ -203,7 +239,13 @@ def obligations_for(pid, fc: FnContract, tier="quick", finding=None, timeout=Non
         name = f"{pid}/{short}:{fc.qualname}/{case.label}"
 
         def fn(fc=fc, case=case):
-            r = verify_case(fc, case, timeout_ms=10000 if tier == "quick" else 60000, budget_s=200 if tier == "quick" else 900)
+            to = 10000 if tier == "quick" else 60000
+            r = verify_case(fc, case, timeout_ms=to, budget_s=200 if tier == "quick" else 900)
+            if r["status"] == UNDECIDED and not r.get("unsupported"):
+                # solver budget: one retry with a different seed and a 3x budget, so that verdicts do not flip under load
+                z3.set_param("smt.random_seed", 7)
+                r = verify_case(fc, case, timeout_ms=3 * to, budget_s=400 if tier == "quick" else 1800)
+                z3.set_param("smt.random_seed", 0)
             st = r.get("stats", {})
             extra = dict(paths=st.get("paths"), sub_obligations=st.get("vcs", 0), solver_s=round(st.get("solver_s", 0), 3),
                          returning_paths=st.get("returning_paths"), raising_paths=st.get("raising_paths"))
@@ -211,7 +253,10 @@ def obligations_for(pid, fc: FnContract, tier="quick", finding=None, timeout=Non
                 return Outcome(DISCHARGED, "z3", f"{st['vcs']} VCs over {st['paths']} paths", extra=extra)
             if r["status"] == REFUTED:
                 try:
-                    rp = replay_case(fc, case, r["model"])
+                    if str(r.get("label", "")).startswith("float-exact"):
+                        rp, r["model"] = replay_float_exact(fc, case, r["model"])
+                    else:
+                        rp = replay_case(fc, case, r["model"])
                 except Exception:  # pylint: disable=broad-except
                     rp = dict(confirmed=None, note="replay crashed: " + traceback.format_exc()[-800:])
                 return Outcome(REFUTED, "z3", f"VC {r['label']} refuted: {r.get('detail', '')}", witness=dict(inputs=S.show(r["model"]), vc=r["label"]),
@@ -224,6 +269,8 @@ def obligations_for(pid, fc: FnContract, tier="quick", finding=None, timeout=Non
             r = verify_case(fc, case)
             if r["status"] != REFUTED:
                 return dict(confirmed=False, note=f"obligation now {r['status']}")
+            if str(r.get("label", "")).startswith("float-exact"):
+                return replay_float_exact(fc, case, r["model"])[0]
             return replay_case(fc, case, r["model"])
 
         src_q = fc.qualname
